@@ -2,7 +2,9 @@ package main
 
 import (
 	"context"
+	"encoding/json"
 	"fmt"
+	"io"
 	"reflect"
 	"strings"
 
@@ -33,8 +35,20 @@ var c13Descs = map[string]string{
 	"big": strings.Repeat("# 0123456789abcdef\n", 4000),
 }
 
-// operations: "reg:<name>:<desc>", "serve", "shutdown", "query"
-var c13Ops = []string{"reg:a.b:d1", "reg:a.c:d2", "reg:é.x:d3", "reg:a.b:d4", "reg:org.varlink.service:d1", "reg:org.varlink.resolver:d1", "serve", "shutdown", "query"}
+// operations: "reg:<name>:<desc>", "serve", "shutdown", "query" (a fresh client connection while serving),
+// "dquery" (in-process HandleMessage, any state), "conn" (open a connection that is kept), "pquery" (query on the
+// kept connection, also after Shutdown: it stays served until it is closed)
+var c13Ops = []string{"reg:a.b:d1", "reg:a.c:d2", "reg:é.x:d3", "reg:a.b:d4", "reg:org.varlink.service:d1", "reg:org.varlink.resolver:d1", "serve", "shutdown", "query", "dquery", "conn", "pquery"}
+
+// capture is the ReadWriterContext handed to HandleMessage by an in-process caller.
+type capture struct{ out []byte }
+
+func (c *capture) Write(ctx context.Context, b []byte) (int, error) {
+	c.out = append(c.out, b...)
+	return len(b), nil
+}
+func (c *capture) Read(ctx context.Context, b []byte) (int, error)          { return 0, io.EOF }
+func (c *capture) ReadBytes(ctx context.Context, d byte) ([]byte, error) { return nil, io.EOF }
 
 type c13State struct {
 	fail string
@@ -101,59 +115,29 @@ func c13Body(d c13Desc) func() {
 				st.key = strings.TrimSpace(strings.ReplaceAll(k, "%s", ""))
 			}
 		}
-		for step, op := range d.Hist {
-			switch {
-			case strings.HasPrefix(op, "reg:"):
-				p := strings.SplitN(op, ":", 3)
-				name, desc := p[1], c13Descs[p[2]]
-				mentioned[name] = true
-				var err error
-				if name == "org.varlink.resolver" {
-					err = s.RegisterInterface(&resolverDisp{desc: desc})
-				} else {
-					err = s.RegisterInterface(&disp{name: name, desc: desc, w: w})
-				}
-				_, dup := descs[name]
-				dup = dup || name == "org.varlink.service"
-				wantErr := dup || serving
-				if (err != nil) != wantErr {
-					fail("step %d %s: RegisterInterface returned %v, reference says refused=%v (duplicate=%v serving=%v)", step, op, err, wantErr, dup, serving)
-				}
-				if !wantErr {
-					names = append(names, name)
-					descs[name] = desc
-				}
-			case op == "serve":
-				l = vnet.NewListener(fmt.Sprintf("L%d", step))
-				ll := l
-				done := false
-				mret = &done
-				vsched.GoDaemon("M", func() {
-					s.VerifSetListener(ll)
-					s.DoListen(ctx, 0)
-					done = true
-				})
-				vsched.Yield("wait-serving", "H", func() bool { return ll.Blocked() })
-				serving = true
-			case op == "shutdown":
-				s.Shutdown()
-				if serving {
-					d := mret
-					vsched.Yield("join-M", "H", func() bool { return *d })
-					serving = false
-				}
-			case op == "query":
-				c, err := l.Dial(fmt.Sprintf("q%d", step))
-				if err != nil {
-					fail("step %d: dial failed while serving", step)
-					continue
-				}
-				conn := varlink.VerifNewConnection(c)
-				var vendor, product, version, url string
-				var ifaces []string
+		var pconn *varlink.Connection
+		var sharedIfaces []string
+		var earlier []struct{ got, want []string }
+		doQuery := func(step int, conn *varlink.Connection) {
+				// out-variables that already hold values: the helper must return the service's values, not keep these
+				vendor, product, version, url := "SENTINEL", "SENTINEL", "SENTINEL", "SENTINEL"
+				ifaces := []string{"SENTINEL", "SENTINEL", "SENTINEL", "SENTINEL", "SENTINEL", "SENTINEL", "SENTINEL"}
 				if err := conn.GetInfo(live, &vendor, &product, &version, &url, &ifaces); err != nil {
 					fail("step %d: GetInfo: %v", step, err)
 				}
+				// the same slice variable is reused by every query of the history: lists returned earlier must stay intact
+				if err := conn.GetInfo(live, nil, nil, nil, nil, &sharedIfaces); err != nil {
+					fail("step %d: GetInfo: %v", step, err)
+				}
+				if !reflect.DeepEqual(sharedIfaces, names) {
+					fail("step %d: GetInfo interfaces (reused variable) %q, reference %q", step, sharedIfaces, names)
+				}
+				for _, e := range earlier {
+					if !reflect.DeepEqual(e.got, e.want) {
+						fail("step %d: an interface list returned by an earlier GetInfo changed afterwards: %q, was %q", step, e.got, e.want)
+					}
+				}
+				earlier = append(earlier, struct{ got, want []string }{sharedIfaces, append([]string(nil), names...)})
 				if [4]string{vendor, product, version, url} != id {
 					fail("step %d: GetInfo identity %q, created with %q", step, [4]string{vendor, product, version, url}, id)
 				}
@@ -208,7 +192,145 @@ func c13Body(d c13Desc) func() {
 						fail("step %d: Resolve(nope) = %q, %v; want an error", step, a, err)
 					}
 				}
+		}
+		_ = doQuery
+		for step, op := range d.Hist {
+			switch {
+			case strings.HasPrefix(op, "reg:"):
+				p := strings.SplitN(op, ":", 3)
+				name, desc := p[1], c13Descs[p[2]]
+				mentioned[name] = true
+				var err error
+				if name == "org.varlink.resolver" {
+					err = s.RegisterInterface(&resolverDisp{desc: desc})
+				} else {
+					err = s.RegisterInterface(&disp{name: name, desc: desc, w: w})
+				}
+				_, dup := descs[name]
+				dup = dup || name == "org.varlink.service"
+				wantErr := dup || serving
+				if (err != nil) != wantErr {
+					fail("step %d %s: RegisterInterface returned %v, reference says refused=%v (duplicate=%v serving=%v)", step, op, err, wantErr, dup, serving)
+				}
+				if !wantErr {
+					names = append(names, name)
+					descs[name] = desc
+				}
+			case op == "serve":
+				l = vnet.NewListener(fmt.Sprintf("L%d", step))
+				ll := l
+				done := false
+				mret = &done
+				vsched.GoDaemon("M", func() {
+					s.VerifSetListener(ll)
+					s.DoListen(ctx, 0)
+					done = true
+				})
+				vsched.Yield("wait-serving", "H", func() bool { return ll.Blocked() })
+				serving = true
+			case op == "shutdown":
+				s.Shutdown()
+				if serving {
+					d := mret
+					if pconn != nil {
+						// the kept connection is still served: the serving call has torn down but waits for it
+						vsched.Yield("wait-teardown", "H", func() bool { _, ln, _, _, _ := s.VerifPeek(); return ln == nil || *d })
+					} else {
+						vsched.Yield("join-M", "H", func() bool { return *d })
+					}
+					serving = false
+				}
+			case op == "query":
+				c, err := l.Dial(fmt.Sprintf("q%d", step))
+				if err != nil {
+					fail("step %d: dial failed while serving", step)
+					continue
+				}
+				conn := varlink.VerifNewConnection(c)
+				doQuery(step, conn)
 				conn.Close()
+			case op == "conn":
+				c, err := l.Dial(fmt.Sprintf("p%d", step))
+				if err != nil {
+					fail("step %d: dial failed while serving", step)
+					continue
+				}
+				if pconn != nil {
+					pconn.Close()
+				}
+				pconn = varlink.VerifNewConnection(c)
+				// a round trip makes sure the connection has been accepted (a connection still in the listener's
+				// backlog is legitimately reset by Shutdown)
+				if err := pconn.GetInfo(live, nil, nil, nil, nil, nil); err != nil {
+					fail("step %d: GetInfo on the kept connection: %v", step, err)
+				}
+			case op == "pquery":
+				doQuery(step, pconn)
+			case op == "dquery":
+				// an in-process caller of HandleMessage (as the repository's own tests do), in any state
+				call := func(method string, params interface{}) map[string]json.RawMessage {
+					req, _ := json.Marshal(map[string]interface{}{"method": method, "parameters": params})
+					var cp capture
+					if err := s.HandleMessage(live, &cp, req); err != nil {
+						fail("step %d: HandleMessage(%s): %v", step, method, err)
+						return nil
+					}
+					if len(cp.out) == 0 || cp.out[len(cp.out)-1] != 0 {
+						fail("step %d: HandleMessage(%s) wrote %q", step, method, short(string(cp.out)))
+						return nil
+					}
+					var rep struct {
+						Error      string                     `json:"error"`
+						Parameters map[string]json.RawMessage `json:"parameters"`
+					}
+					if err := json.Unmarshal(cp.out[:len(cp.out)-1], &rep); err != nil {
+						fail("step %d: HandleMessage(%s) reply does not decode: %v", step, method, err)
+						return nil
+					}
+					if rep.Parameters == nil {
+						rep.Parameters = map[string]json.RawMessage{}
+					}
+					rep.Parameters["\x00error"], _ = json.Marshal(rep.Error)
+					return rep.Parameters
+				}
+				if rep := call("org.varlink.service.GetInfo", nil); rep != nil {
+					var got []string
+					json.Unmarshal(rep["interfaces"], &got)
+					if !reflect.DeepEqual(got, names) {
+						fail("step %d: in-process GetInfo interfaces %q, reference %q", step, got, names)
+					}
+					var idg [4]string
+					for i, k := range []string{"vendor", "product", "version", "url"} {
+						json.Unmarshal(rep[k], &idg[i])
+					}
+					if idg != id {
+						fail("step %d: in-process GetInfo identity %q, created with %q", step, idg, id)
+					}
+				}
+				var probe []string
+				for n := range mentioned {
+					probe = append(probe, n, n+"x")
+				}
+				sortStrings(probe)
+				for _, n := range probe {
+					rep := call("org.varlink.service.GetInterfaceDescription", map[string]string{"interface": n})
+					if rep == nil {
+						continue
+					}
+					var got, errName string
+					json.Unmarshal(rep["description"], &got)
+					json.Unmarshal(rep["\x00error"], &errName)
+					want, ok := descs[n]
+					if n == "org.varlink.service" {
+						ok, want = true, got
+					}
+					if ok && (errName != "" || got != want) {
+						fail("step %d: in-process GetInterfaceDescription(%q) = %q error %q; registered text %q", step, n, short(got), errName, short(want))
+					}
+					if !ok && errName != "org.varlink.service.InvalidParameter" {
+						fail("step %d: in-process GetInterfaceDescription(%q) for a name that is not registered = %q error %q", step, n, short(got), errName)
+					}
+				}
 			}
 			st.log = append(st.log, fmt.Sprintf("%s names=%v", op, s.VerifNames()))
 			if got := s.VerifNames(); !reflect.DeepEqual(got, names) {
@@ -217,6 +339,9 @@ func c13Body(d c13Desc) func() {
 		}
 		if serving {
 			s.Shutdown()
+		}
+		if pconn != nil {
+			pconn.Close()
 		}
 	}
 }
@@ -261,26 +386,27 @@ func scenariosC13(tier string) []Scen {
 		maxLen = 5
 	}
 	var out []Scen
-	var rec func(h []string, serving bool, served bool)
-	rec = func(h []string, serving bool, served bool) {
-		if len(h) > 0 {
+	var rec func(h []string, serving bool, kept bool)
+	base := 0
+	rec = func(h []string, serving bool, kept bool) {
+		if len(h) > base {
 			last := h[len(h)-1]
 			// keep histories that end in an observation or a decision (a trailing reg is judged by its error)
-			if last == "query" || strings.HasPrefix(last, "reg:") {
+			if strings.HasSuffix(last, "query") || strings.HasPrefix(last, "reg:") {
 				for id := range c13Idents {
-					if id > 0 && (last != "query" || len(h) > 3) {
+					if id > 0 && (!strings.HasSuffix(last, "query") || len(h) > 3+base) {
 						continue
 					}
 					d := c13Desc{Ident: id, Hist: append([]string(nil), h...)}
 					b := 0
-					if len(h) <= 3 {
+					if len(h) <= 3 && base == 0 {
 						b = 1
 					}
 					out = append(out, Scen{Desc: d, Bound: b, Body: c13Body(d), Check: c13Check, Obs: c13Obs})
 				}
 			}
 		}
-		if len(h) == maxLen {
+		if len(h) == maxLen+base {
 			return
 		}
 		for _, op := range c13Ops {
@@ -289,19 +415,31 @@ func scenariosC13(tier string) []Scen {
 				if serving {
 					continue
 				}
-				rec(append(h, op), true, true)
+				rec(append(h, op), true, kept)
 			case "shutdown":
-				rec(append(h, op), false, served)
-			case "query":
+				rec(append(h, op), false, kept)
+			case "query", "conn":
 				if !serving {
 					continue
 				}
-				rec(append(h, op), serving, served)
+				rec(append(h, op), serving, kept || op == "conn")
+			case "pquery":
+				if !kept {
+					continue
+				}
+				rec(append(h, op), serving, kept)
 			default:
-				rec(append(h, op), serving, served)
+				rec(append(h, op), serving, kept)
 			}
 		}
 	}
 	rec(nil, false, false)
+	// deeper family: a connection that survives a Shutdown, then every continuation (register-again histories
+	// observed both through the surviving connection and through new ones)
+	base = 3
+	maxLen--
+	rec([]string{"serve", "conn", "shutdown"}, false, true)
+	base = 4
+	rec([]string{"reg:a.b:d1", "serve", "conn", "shutdown"}, false, true)
 	return out
 }
